@@ -430,6 +430,11 @@ def generate(run_seed, tier):
             if r.random() < 0.1:
                 op["reenter"] = max(2, r.getrandbits(r.choice(
                     [3, 9, 17, 64, 130, 257, 520])))
+            # a failed call (order of the wrong type / out of domain) made
+            # elsewhere in the program just before
+            if r.random() < 0.1:
+                op["bad"] = r.choice(["float", "none", "str", "one", "zero",
+                                      "neg"])
         if name in ("sign", "default_sign", "generate", "default_generate"):
             op["d"] = libx.key_scalar(r, mc.n)
             op["msg"] = core.hx(r.randbytes(r.choice([0, 1, 8])))
@@ -510,6 +515,18 @@ def execute(prog):
             if name in ("randrange", "two_draws"):
                 n = op["order"]
                 dev = _bounded(device(op, n))
+                if op.get("bad"):
+                    arg = {"float": float(n) if n < (1 << 900) else 7.0,
+                           "none": None, "str": str(n), "one": 1, "zero": 0,
+                           "neg": -n}[op["bad"]]
+                    core.bump(out["faults"], "failed_call_" + op["bad"])
+                    try:
+                        world.guarded(lambda: lu.randrange(
+                            arg, _bounded(world.SimEntropy(
+                                "uniform", r=random.Random(op["dseed"] ^ 3)))),
+                            10)
+                    except Exception:
+                        pass
                 if op.get("reenter"):
                     dev = _reentrant(dev, lu, op["reenter"], op["dseed"])
                     core.bump(out["probes"], "reentrant_source")
